@@ -35,6 +35,9 @@ def main():
         d = os.path.join(SEEDED, sid)
         meta = json.load(open(os.path.join(d, "meta.json")))
         checks = meta.get("checks") or [meta["property"]]
+        if os.environ.get("SEEDED_PRIMARY_ONLY"):
+            # the check of the property the change breaks (plus, when that is not listed, the first listed)
+            checks = [meta["property"]] if meta["property"] in checks else checks[:1]
         rc, out = sh(f"git apply {os.path.join(d, 'patch.diff')}", cwd=REPO)
         if rc != 0:
             print(sid, "patch does not apply:", out)
@@ -71,7 +74,8 @@ def main():
             f.write("| " + " | ".join(r) + " |\n")
     # restore the evidence files of the unchanged tree
     for c in sorted({c for sid in ids for c in (json.load(open(os.path.join(SEEDED, sid, "meta.json"))).get("checks") or [])}):
-        sh(f"./check {c} --tier quick", cwd=HERE)
+        rc, out = sh(f"./check {c} --tier quick", cwd=HERE)
+        print("unchanged tree:", c, "exit", rc)
     return 0
 
 
